@@ -220,6 +220,9 @@ func (fv *funcVerifier) evalCall(st *State, call *ast.CallExpr) []smt.Term {
 		if h, ok := libModels[full]; ok {
 			return h(fv, st, call, fn)
 		}
+		if h := layehModel(fn); h != nil {
+			return h(fv, st, call, fn)
+		}
 		sig := fn.Type().(*types.Signature)
 		if isNoEffect(full, fn) {
 			fv.evalCallee(st, call.Fun)
@@ -278,6 +281,9 @@ func (fv *funcVerifier) evalCall(st *State, call *ast.CallExpr) []smt.Term {
 	args := fv.evalArgs(st, call, sig)
 	if res, ok := fv.callFuncValueSpec(st, call, args); ok {
 		return res
+	}
+	if n, ok := fv.typeOf(call.Fun).(*types.Named); ok && n.Obj().Pkg() != nil && n.Obj().Pkg().Path() == "context" && n.Obj().Name() == "CancelFunc" {
+		return fv.freshResults(st, call, "cancel")
 	}
 	fv.note("call through function value %s: assumed not to panic; heap havocked", fv.exprStr(call.Fun))
 	fv.havocAll(st)
@@ -355,9 +361,17 @@ func (fv *funcVerifier) evalConversion(st *State, call *ast.CallExpr, to types.T
 	if sl, ok := to.Underlying().(*types.Slice); ok {
 		if isString(from) {
 			arr := fv.alloc(st, "bytes")
-			fv.memKey(sl.Elem())
+			key := fv.memKey(sl.Elem())
 			n := smt.App(smt.Int, "str_len", v)
-			fv.note("[]byte(string): contents not related to the string")
+			if fv.so.sortOf(sl.Elem()) == smt.Int && isInteger(sl.Elem()) {
+				if b, ok := sl.Elem().Underlying().(*types.Basic); ok && b.Kind() == types.Uint8 {
+					// fresh array holding exactly the bytes of the string
+					fv.mut++
+					fv.heapSet(st, key, smt.Store(fv.heapGet(st, key), arr, fv.strBytes(v)))
+					return fv.c.Let("bs", mkSlice(arr, smt.IntLit(0), n, n))
+				}
+			}
+			fv.note("[]rune(string): contents not related to the string")
 			return fv.c.Let("bs", mkSlice(arr, smt.IntLit(0), n, n))
 		}
 		return v
